@@ -34,7 +34,7 @@ func drawInvocation(t *tape.Tape, w *world.World) invocation {
 		all = append(all, "q")
 	}
 	if w.HasExt {
-		all = append(all, "ext", "other/ext")
+		all = append(all, "ext", "other/ext", "msg-go")
 	}
 	if w.Twin > 0 {
 		all = append(all, "twin/p")
